@@ -312,6 +312,27 @@ func c11(c *h.Ctx) {
 		}
 	}
 
+	// 0b. the raw block is opaque: payloads that themselves look like ADTS (a complete frame — the output of an earlier
+	// Encode —, a frame with its length field off by one, a bare sync word, a frame of another configuration) get a
+	// header of their own like any other payload and come back unchanged
+	for _, k := range []aacCfg{{2, 4, 2}, {1, 3, 1}, {5, 11, 2}} {
+		_, inner := adtsEnc(k, []byte{1, 2, 3, 4, 5, 6, 7, 8, 9})
+		_, innerOther := adtsEnc(aacCfg{2, 8, 1}, make([]byte, 40))
+		if len(inner) < 8 {
+			continue
+		}
+		short := append([]byte(nil), inner[:len(inner)-1]...)
+		long := append(append([]byte(nil), inner...), 0)
+		for _, raw := range [][]byte{inner, innerOther, short, long, {0xff, 0xf1}, {0xff, 0xf1, 0x50, 0x80, 0x00, 0xff, 0xfc}, append(append([]byte(nil), inner...), inner...)} {
+			in := fmt.Sprintf("adts.enc %s %s (a payload that looks like ADTS)", k, h.Hex(raw))
+			impl, out := adtsEnc(k, raw)
+			eq("adts.enc", in, impl, c.O.Call("adts.enc", k.String(), h.Hex(raw)))
+			dimpl, got, left, _ := adtsDec(zero, out)
+			c.Hold(len(out) == len(raw)+7 && dimpl != "panic" && bytes.Equal(got, raw) && len(left) == 0, "adts_roundtrip.opaque_payload", in, fmt.Sprintf("%d bytes encoded; decoded %s", len(out), h.Trunc(dimpl, 120)), fmt.Sprintf("%d bytes encoded; the payload back", len(raw)+7))
+			c.Case("opaque-payload", in, true)
+		}
+	}
+
 	// 1. enum helpers: all 256 values; total; ToHz = ISO table.
 	for v := 0; v < 256; v++ {
 		in := fmt.Sprintf("aac.enum %d", v)
